@@ -15,10 +15,19 @@
 (* consists of small dyadic numbers, because folding e.g. 0.1 + 0.2 or     *)
 (* 2 - eps in floating point cannot be exact in real arithmetic and the    *)
 (* statement cannot mean that; a numeric literal denotes its value in the  *)
-(* type of its like.                                                        *)
+(* type of its like.  float_updown = a float disagreement that disappears  *)
+(* when upcast(downcast(x)) is read as x (classified, still reported).     *)
 (***************************************************************************)
 EXTENDS FAIR, TraceKit
 VARIABLE l
+
+\* exact clause: t judged with the strict select (defined on fewer assignments: fewer obligations), t2 with
+\* the conditional-expression select (an unselected undefined branch, e.g. the 0/0 of an expanded hypot
+\* at the origin, does not make t2 undefined); a value the semantics does not determine (un) is not judged
+BadQ(f, t, t2, env) == LET a == EvalQ(f, t, env) b == EvalQLazy(f, t2, env)
+                       IN  a.def /\ ~b.un /\ ~(b.def /\ QSame(a, b))
+BadF(f, t, t2, env) == LET a == EvalF(f, t, env) b == EvalF(f, t2, env)
+                       IN  ~a.exc /\ ~b.un /\ ~(~b.exc /\ FSame(f, a, b))
 
 Fails(e) ==
   IF e.raised # "" THEN {"raised"}
@@ -26,21 +35,18 @@ Fails(e) ==
   ELSE IF ~AllSupported(e.t) \/ ~AllSupported(e.t2) THEN {}
   ELSE LET f == FmtOf(e.fmt)
            envs == Envs(f, SymbolsOf(e.t) \cup SymbolsOf(e.t2))
-           badq == ExactJudgeable(e.t) /\
-                   \E env \in envs : LET a == EvalQ(f, e.t, env) b == EvalQ(f, e.t2, env)
-                                     IN  a.def /\ ~(b.def /\ QSame(a, b))
-           badf == \E env \in envs : LET a == EvalF(f, e.t, env) b == EvalF(f, e.t2, env)
-                                     IN  ~a.exc /\ ~(~b.exc /\ FSame(f, a, b))
-       IN  (IF badq THEN {"exact"} ELSE {}) \cup (IF badf THEN {"float"} ELSE {})
+           badq == ExactJudgeablePair(e.t, e.t2) /\ \E env \in envs : BadQ(f, e.t, e.t2, env)
+           badf == \E env \in envs : BadF(f, e.t, e.t2, env)
+           \* classification of a float disagreement: it disappears when every upcast(downcast(x)) of both
+           \* terms is read as x (the known, deliberate rule of the rewriter)
+           ud == badf /\ ElimUD(e.t) # e.t /\ ~\E env \in envs : BadF(f, ElimUD(e.t), ElimUD(e.t2), env)
+       IN  (IF badq THEN {"exact"} ELSE {}) \cup (IF badf THEN {IF ud THEN "float_updown" ELSE "float"} ELSE {})
 
 \* a witness assignment for a failing event (first found), printed as a NOTE
 Witness(e) ==
   LET f == FmtOf(e.fmt)
       envs == Envs(f, SymbolsOf(e.t) \cup SymbolsOf(e.t2))
-      bad(env) == \/ (ExactJudgeable(e.t) /\ LET a == EvalQ(f, e.t, env) b == EvalQ(f, e.t2, env)
-                                         IN  a.def /\ ~(b.def /\ QSame(a, b)))
-                  \/ LET a == EvalF(f, e.t, env) b == EvalF(f, e.t2, env)
-                     IN  ~a.exc /\ ~(~b.exc /\ FSame(f, a, b))
+      bad(env) == (ExactJudgeablePair(e.t, e.t2) /\ BadQ(f, e.t, e.t2, env)) \/ BadF(f, e.t, e.t2, env)
   IN  CHOOSE env \in envs : bad(env)
 
 Init == l = 1
@@ -48,7 +54,7 @@ Next == /\ l <= Len(Trace)
         /\ LET e == Trace[l]
                fl == Fails(e)
            IN  /\ Report(e, fl)
-               /\ IF fl \cap {"exact", "float"} # {} THEN Note(e, Witness(e)) ELSE TRUE
+               /\ IF fl \cap {"exact", "float", "float_updown"} # {} THEN Note(e, Witness(e)) ELSE TRUE
                /\ IF e.raised = "" /\ e.t # e.t2 /\ (~AllSupported(e.t) \/ ~AllSupported(e.t2)) THEN Note(e, "unsupported") ELSE TRUE
         /\ l' = l + 1
 Spec == Init /\ [][Next]_l
